@@ -614,7 +614,7 @@ theorem goDecode_wt (ss : Schemas) (hs : schemasOk ss = true) :
                             field_eq_of_name_eq ((nodupKeys_iff _).1 hnd) hf hmem (by simpa using hfn)
                           subst this
                           simp only [hfn, if_true]; rw [hbt]; exact hptr
-                        · simp only [hfn, if_false]; exact nilok f hf
+                        · simp only [hfn]; exact nilok f hf
             all_goals cases hx
       case enum vs om =>
         cases vs with
